@@ -417,6 +417,14 @@ realloc_pfn_offs(struct pfn_block *block, unsigned short alloc)
 	if (block->alloc == alloc)
 		return KDUMP_OK;
 
+	if (!alloc) {
+		/* realloc(ptr, 0) frees the array and may return NULL. */
+		free(block->offs);
+		block->offs = NULL;
+		block->alloc = 0;
+		return KDUMP_OK;
+	}
+
 	newoffs = realloc(block->offs, alloc * sizeof(uint32_t));
 	if (!newoffs)
 		return KDUMP_ERR_SYSTEM;
